@@ -183,7 +183,8 @@ class Model:
             self.allowed_tokens = getattr(self, "allowed_tokens", set())
             for m in INTERNAL.finditer(str(getattr(obj, "display_name", ""))):
                 self.allowed_tokens.add(m.group(0))
-        self.recs.append({"kind": kind, "obj": obj, "display": display, "latex": latex, "dim": dim, "assume": assumptions, "scale": scale, "src": src, "defaulted": defaulted, "extra": extra})
+        self.serial = getattr(self, "serial", 0) + 1
+        self.recs.append({"serial": self.serial, "kind": kind, "obj": obj, "display": display, "latex": latex, "dim": dim, "assume": assumptions, "scale": scale, "src": src, "defaulted": defaulted, "extra": extra})
 
     def symbol_like(self):
         return [r for r in self.recs if r["kind"] in ("symbol", "indexed")]
@@ -192,7 +193,7 @@ class Model:
 def _internal_name(rec) -> str:
     o = rec["obj"]
     if rec["kind"] == "wrapper":
-        return f"{o.name}#{id(rec['extra']['factor'])}"  # named after the display form by design
+        return f"{o.name}#{rec['serial']}"  # named after the display form by design (no real address in the log)
     if rec["kind"] in ("function", "vecfunction"):
         return str(o.name)
     if rec["kind"] == "indexed":
@@ -200,7 +201,7 @@ def _internal_name(rec) -> str:
     if rec["kind"] == "coordsys":
         return str(o.coord_system._name)  # pylint: disable=protected-access
     if rec["kind"] == "xcoordsys":
-        return "xcs#" + str(id(o))
+        return "xcs#" + str(rec["serial"])
     return str(o.name)
 
 
